@@ -7,6 +7,7 @@ toolchain go1.25.8
 require (
 	github.com/blinklabs-io/gouroboros v0.188.0
 	github.com/blinklabs-io/ouroboros-mock v0.16.0
+	github.com/btcsuite/btcd/btcutil v1.2.0
 	golang.org/x/crypto v0.55.0
 )
 
@@ -15,7 +16,6 @@ require (
 	github.com/bits-and-blooms/bitset v1.24.4 // indirect
 	github.com/blinklabs-io/plutigo v0.3.0 // indirect
 	github.com/btcsuite/btcd/btcec/v2 v2.5.0 // indirect
-	github.com/btcsuite/btcd/btcutil v1.2.0 // indirect
 	github.com/btcsuite/btcd/chaincfg/chainhash v1.2.0 // indirect
 	github.com/btcsuite/btcd/chainhash/v2 v2.0.0 // indirect
 	github.com/consensys/gnark-crypto v0.20.1 // indirect
